@@ -36,7 +36,7 @@ func execServe(f []string) vlib.Res {
 	under, ref, pristine := rebuild(), rebuild(), rebuild()
 	want := libPack(ref.m)
 	if f[4] != "lib="+want.String() || f[5] != fmt.Sprintf("ulen=%d", under.ulen()) {
-		return vlib.Res{Impl: "stale-args", Oracle: "FAIL sig=harness/serve-args-do-not-describe-the-message"}
+		return vlib.Res{Impl: "stale-args", Oracle: fmt.Sprintf("FAIL sig=harness/serve-args-do-not-describe-the-message lib=%s ulen=%d", want, under.ulen())}
 	}
 	req := new(dns.Msg)
 	req.SetQuestion("serve.example.", dns.TypeA)
